@@ -189,6 +189,11 @@ def gen_extract(r, prop, client, risky_rate=0.04, force_small=False,
         # of the Series form.
         op['examples'] = [s.replace('\x00', '\x01') if s is not None else s
                           for s in op['examples']]
+        op['series_dtype'] = r.weighted([(4, 'object'), (2, 'category'),
+                                         (2, 'category_unused'), (1, 'str')])
+        if op['series_dtype'] == 'category_unused':
+            op['extra_categories'] = r.sample(
+                ['zzzz', 'Q-1', '99', 'unused value', 'é'], r.randint(1, 2))
     op['rs'] = gen_rs(r, seed)
     return op
 
@@ -338,6 +343,25 @@ def gen_c14(r, clients):
             s = r.pick(ex)
             rep.insert(r.randrange(len(rep) + 1), s)
         ops.append(variant('repeated', examples=rep))
+    if r.chance(0.35):
+        # the same strings as Pandas columns (pdextract takes no options, so
+        # its list-form peer is a call with default options and sizes)
+        exs = [s.replace('\x00', '\x01') if s is not None else s
+               for s in ex]
+        seed = tgt.get('seed')
+        ops.append(variant('plain-list', examples=exs, opts={}, size=None,
+                           group=1))
+        dt = r.weighted([(2, 'object'), (2, 'category'),
+                         (3, 'category_unused'), (1, 'str')])
+        sv = variant('series-' + dt, examples=exs, opts={}, size=None,
+                     group=1, form='series', split=r.randint(1, 2),
+                     series_dtype=dt)
+        if dt == 'category_unused':
+            # categories declared but not present in any row (left behind
+            # after filtering, or declared up front)
+            sv['extra_categories'] = r.sample(
+                ['zzzz', 'Q-1', '99', 'unused value', 'é'], r.randint(1, 2))
+        ops.append(sv)
     return ops
 
 
@@ -550,11 +574,24 @@ def build_examples(op):
         import pandas as pd
         ex = op['examples']
         k = op.get('split', 1)
+        dt = op.get('series_dtype', 'object')
+
+        def col(vals):
+            if dt == 'object':
+                return pd.Series(vals, dtype=object)
+            if dt == 'str':
+                return pd.Series(vals, dtype='str')
+            used = []
+            for v in vals:
+                if v is not None and v not in used:
+                    used.append(v)
+            cats = used + [c for c in op.get('extra_categories', [])
+                           if c not in used]
+            return pd.Series(pd.Categorical(vals, categories=cats))
         if k == 1:
-            return pd.Series(ex, dtype=object)
+            return col(ex)
         h = len(ex) // 2
-        return [pd.Series(ex[:h], dtype=object),
-                pd.Series(ex[h:], dtype=object)]
+        return [col(ex[:h]), col(ex[h:])]
     return list(op['examples'])
 
 
